@@ -109,6 +109,15 @@ func (m *roster) updateTasks(tasks Tasks) {
 	m.tasks = tasks
 }
 
+// keep replaces the roster by those of its tasks that satisfy the filter, in one critical section
+// (a filtered() followed by updateTasks() loses a task appended in between).
+func (m *roster) keep(filter Filter) {
+	m.mu.Lock()
+	defer m.mu.Unlock()
+
+	m.tasks = m.tasks.Filtered(filter)
+}
+
 func (m *roster) append(task *Task) {
 	m.mu.Lock()
 	defer m.mu.Unlock()
